@@ -154,6 +154,14 @@ lbool SimpSMTSolver::solve_(bool do_simp, bool turn_off_simp)
             }
         }
 
+        // Boolean terms that are arguments of uninterpreted functions are seen by the theory solver
+        // even when they occur in no clause, so they must not be eliminated either
+        for (Var v = 0; v < nVars(); v++) {
+            if (!frozen[v] && !isEliminated(v) && theory_handler.getLogic().appearsInUF(theory_handler.varToTerm(v))) {
+                setFrozen(v, true);
+            }
+        }
+
         result = lbool(eliminate(turn_off_simp));
     }
 
